@@ -78,7 +78,12 @@ def run(ctx, n=None, par=None):
             {"meta": fxm, "services": {"repo": {"value": "&fx.Obj{}", "scope": "shared", "tags": [{"name": "t", "priority": 3}]}, "tx": {"constructor": "fx.NewA", "scope": "contextual"},
                                        "mid": {"constructor": "fx.NewA", "arguments": ["@tx"]}},
              "decorators": [{"tag": "t", "decorator": "fx.Dec1", "arguments": ["!tagged u"]}, {"tag": "u", "decorator": "fx.Dec1"}],
-             "__extra__": {"mid": {"tags": ["u"]}}}]):
+             "__extra__": {"mid": {"tags": ["u"]}}},
+            # … nor through a dependency list in which a placeholder (or several) stands before the contextual service
+            {"meta": fxm, "services": {"repo": {"constructor": "fx.NewA", "scope": "shared", "arguments": ["@clock", "@tx"], "fields": {"F1": "@aaa"}},
+                                       "clock": {"todo": True}, "aaa": {"todo": True, "scope": "shared"}, "tx": {"constructor": "fx.NewA", "scope": "contextual"}}},
+            {"meta": fxm, "services": {"repo": {"constructor": "fx.NewA", "scope": "shared", "arguments": ["@mid"]}, "mid": {"constructor": "fx.NewA", "arguments": ["@a_later", "@zz"]},
+                                       "a_later": {"todo": True}, "zz": {"constructor": "fx.NewA", "scope": "contextual"}}}]):
         extra = bad.pop("__extra__", {})
         for nm, add in extra.items():
             bad["services"][nm].update(add)
